@@ -70,8 +70,15 @@ def cases(ctx):
                     for sx in range(tsh[1]):
                         if t[sy * tsh[1] + sx] != 2:
                             f[(y + sy) * shape[1] + x + sx] = t[sy * tsh[1] + sx]
-            yield {"kind": kind, "shape": shape, "vals": f, "tshape": tsh, "t": t, "layout": lay,
-                   "dtype": rng.choice(["bool", "uint8", "int32", "uint16", "int64"]), "tdtype": rng.choice(["uint8", "int64", "same"])}
+            c = {"kind": kind, "shape": shape, "vals": f, "tshape": tsh, "t": t, "layout": lay,
+                 "dtype": rng.choice(["bool", "uint8", "int32", "uint16", "int64"]), "tdtype": rng.choice(["uint8", "int64", "same"])}
+            if rng.random() < 0.4:
+                # call history: the same template was applied just before to an image of another width (and height) -- what
+                # this call returns may not depend on it
+                psh = [rng.randint(1, 8), rng.choice([w for w in range(1, 10) if w != shape[1]])]
+                c["prev_shape"] = psh
+                c["prev_vals"] = [rng.randint(0, 1) for _ in range(gen.size(psh))]
+            yield c
         else:
             dtype = rng.choice(DTYPES)
             shape = gen.rand_shape(rng, big=(i % 10 == 0))
@@ -133,6 +140,9 @@ def run_case(ctx, case):
         t0 = np.array(case["t"], dtype=np.int64).reshape(case["tshape"])
         td = case.get("tdtype", "uint8")
         t = t0.astype(a0.dtype if td == "same" and a0.dtype != bool else (np.uint8 if td != "int64" else np.int64))
+        if case.get("prev_shape"):
+            prev = np.array(case["prev_vals"], dtype=np.int64).reshape(case["prev_shape"]).astype(a0.dtype)
+            mh.hitmiss(prev, t)
         got = mh.hitmiss(a, t)
         if not np.array_equal(a, keep):
             return Result(False, True, {"why": "input modified"})
